@@ -51,7 +51,7 @@ def make_keys(rng, thorough):
                 keys.append(SshHostKeyRSA(SshHostKeyAlgorithm.SSH_RSA, PublicKey.from_params(PublicKeyParamsRsa(modulus=n, public_exponent=e))))
             except Exception:  # pylint: disable=broad-except
                 pass
-    for bits in (1, 7, 8, 9, 159, 160, 161, 1023, 1024, 1025, 997):
+    for bits in (7, 8, 9, 159, 160, 161, 1023, 1024, 1025, 997):
         vals = [(1 << (bits - 1)) | rng.getrandbits(bits - 1) if bits > 1 else 1 for _ in range(4)]
         try:
             keys.append(SshHostKeyDSS(SshHostKeyAlgorithm.SSH_DSS, PublicKey.from_params(PublicKeyParamsDsa(
